@@ -309,6 +309,60 @@ def truthiness_uses(f, name):
 
 
 
+
+
+# ------------------------------------------------------------------ an option taken out of **kwargs before they are forwarded
+def consumed_before_forwarding(f):
+    """[(pop node, key, forwarding call)] `kwargs.pop("k")` / `del kwargs["k"]` followed by a call that forwards `**kwargs` without
+    passing k explicitly: the component behind that call no longer gets the option and falls back to its default"""
+    kw = f.node.args.kwarg.arg if f.node.args.kwarg is not None else None
+    if kw is None:
+        return []
+    taken = [(x, x.args[0].value) for x in walk_shallow(f.node) if isinstance(x, ast.Call) and fn_name(x) == "pop" and isinstance(x.func, ast.Attribute)
+             and U(x.func.value) == kw and x.args and isinstance(x.args[0], ast.Constant)]
+    taken += [(x, x.targets[0].slice.value) for x in walk_shallow(f.node) if isinstance(x, ast.Delete) and isinstance(x.targets[0], ast.Subscript)
+              and U(x.targets[0].value) == kw and isinstance(x.targets[0].slice, ast.Constant)]
+    out = []
+    for px, key in taken:
+        for c in walk_shallow(f.node):
+            if isinstance(c, ast.Call) and any(k_.arg is None and U(k_.value) == kw for k_ in c.keywords) and c.lineno > px.lineno and kwarg(c, key) is None:
+                out.append((px, key, c))
+    return out
+
+# ------------------------------------------------------------------ an experiment-wide option that is not handed on
+PLUMBED_OPTIONS = ("mode", "metric", "resource_attr", "max_t", "cost_attr", "random_seed", "config_space", "reduction_factor", "grace_period",
+                   "elapsed_time_attr", "max_resource_attr", "seed", "random_state", "allow_duplicates", "points_to_evaluate")
+PLUMBING_OK = {
+    ("RandomSearcher.clone_from_state", "RandomSearcher", "resource_attr"): "the clone learns the resource attribute from configure_scheduler, like the original",
+}
+
+
+def omitted_options(f):
+    """[(call, option)] a call of one of the program's functions / classes that has a parameter named like an experiment-wide
+    option (mode, metric, resource attribute, seed, ...), made where that option is at hand (a parameter of the caller, or
+    self.<option> / self._<option>), that does not pass it: the callee silently works with its default"""
+    from ..engine import _SIG
+    out = []
+    avail = set()
+    for name in PLUMBED_OPTIONS:
+        if name in f.params or any(isinstance(x, ast.Attribute) and x.attr in (name, "_" + name) and isinstance(x.value, ast.Name) and x.value.id == "self"
+                                   for x in ast.walk(f.node)):
+            avail.add(name)
+    if not avail:
+        return out
+    for x in walk_shallow(f.node, include_lambda=True):
+        if not isinstance(x, ast.Call) or any(k_.arg is None for k_ in x.keywords) or any(isinstance(a, ast.Starred) for a in x.args):
+            continue
+        sigs = _SIG.get(fn_name(x)) or set()
+        for name in sorted(avail):
+            if not sigs or not all(name in s_ for s_ in sigs):
+                continue
+            pos = {s_.index(name) for s_ in sigs}
+            given = kwarg(x, name) is not None or (len(pos) == 1 and len(x.args) > next(iter(pos)))
+            if not given and (f.short, fn_name(x), name) not in PLUMBING_OK:
+                out.append((x, name))
+    return out
+
 # ------------------------------------------------------------------ a constructor that modifies a container the caller owns
 _MUTATORS = {"update", "append", "extend", "pop", "setdefault", "clear", "remove", "insert", "add", "discard", "sort", "reverse", "popitem"}
 CALLER_MUTATION_OK = {
@@ -474,6 +528,9 @@ def ignored_parameters(ctx, f):
 CHAINED_METHODS = ("__init__", "configure_scheduler", "_restore_from_state", "get_state", "on_trial_error", "on_tuning_start", "on_tuning_end",
                    "__setstate__", "__getstate__")
 NO_SUPER_OK = {
+    ("DynamicHPOSearcher", "configure_scheduler"): "a wrapper: configures the internal searcher it delegates to",
+    ("DynamicHPOSearcher", "_restore_from_state"): "a wrapper: state is kept by the internal searcher",
+    ("DynamicHPOSearcher", "get_state"): "a wrapper: state is kept by the internal searcher",
     ("NoOptimization", "__init__"): "deliberately sets nothing up (its optimize() returns the candidate unchanged and reads no attribute)",
 }
 
@@ -883,6 +940,8 @@ EXTRA_SWEPT_FILES = {
     # property: files outside its anchor list that its quantifier reaches
     "C01": ["syne_tune/blackbox_repository/simulated_tabular_backend.py"],   # "every benchmark table": the tabular backend overrides the simulator's pause / resume hooks
     "C12": ["syne_tune/blackbox_repository/simulated_tabular_backend.py"],
+    "C14": ["syne_tune/optimizer/schedulers/searchers/dyhpo/dyhpo_searcher.py", "syne_tune/optimizer/schedulers/searchers/dyhpo/hyperband_dyhpo.py",
+            "syne_tune/optimizer/schedulers/searchers/gp_searcher_factory.py"],     # "GP / HyperTune / DyHPO searchers": where their surrogate data is wired up
     "C20": ["syne_tune/blackbox_repository/simulated_tabular_backend.py", "syne_tune/backend/simulator_backend/simulator_backend.py"],
 }
 INHERITED_FILES_SKIPPED = {
@@ -943,6 +1002,16 @@ def cross_cutting(ctx, rep, prop):
                 bad += 1
                 rep.bad("X", "guarded_by", f"{f.short}: optional number `{p_}` is tested with `is None`, not for truth", f, u,
                         f"`{U(u)[:70]}` treats `{p_} = 0` as 'not given'")
+        for px_, key_, call_ in consumed_before_forwarding(f):
+            bad += 1
+            rep.bad("X", "agreement", f"{f.short}: `{key_}` still reaches {fn_name(call_)} after it was taken out of the keyword arguments", f, px_,
+                    f"`{U(px_)[:50]}` removes `{key_}` from the keyword arguments that are then forwarded to {fn_name(call_)} without it: that component "
+                    "falls back to its default (e.g. mode 'min') while the rest of the experiment uses the user's value")
+        for call_, opt_ in omitted_options(f):
+            bad += 1
+            rep.bad("X", "agreement", f"{f.short}: `{opt_}` is handed on to {fn_name(call_)}", f, call_,
+                    f"{fn_name(call_)} has a parameter `{opt_}` and {f.short} has that option at hand, but the call does not pass it: the component works with its "
+                    "default while the rest of the experiment uses the user's value")
         for node_, var_ in caller_container_mutations(f):
             bad += 1
             rep.bad("X", "aliasing", f"{f.short}: `{var_}` is the constructor's own copy when it is modified", f, node_,
